@@ -1080,6 +1080,15 @@ pub fn gen_dev_held_queue(suite: &str, region: &str, rng: &mut Rng, class_c: boo
             script.push(h.frame_item(0, &b, Some(0)));
         }
         h.asend(1 + rng.below(200) as u8, false, &[k as u8], &script);
+        // with downlinks waiting in the queue, a radio fault somewhere in the receive phase of an
+        // uplink, then the next uplink: the counters must still move on
+        if k == 1 || (k > 1 && rng.chance(1, 4)) {
+            let pos = 1 + rng.below(if class_c { 12 } else { 8 }) as usize;
+            let mut faulty: Vec<String> = vec!["O".to_string(); pos];
+            faulty.push("E".into());
+            h.asend(3, rng.chance(1, 3), &[0xfa], &faulty);
+            h.asend(4, false, &[0xfb], &[]);
+        }
     }
     h.ev("take");
     h.ev("snap");
